@@ -10,10 +10,10 @@
             carries ReleasedAt (cooling) is released, not allocated.                                  *)
 EXTENDS TraceLib, FiniteSets
 
-VARIABLES alloc, cfg, busy      \* busy = <<non-free v4 ordinals, non-free v6 ordinals>> (allocated or cooling)
+VARIABLES alloc, held, cfg, busy      \* busy = <<non-free v4 ordinals, non-free v6 ordinals>> (allocated or cooling)
 
 P == INSTANCE P_CNI
-tvars == <<alloc, cfg, busy>>
+tvars == <<alloc, held, cfg, busy>>
 
 AllocOf(e) == { [a |-> p.a, h |-> p.h] : p \in { q \in SeqToSet(e.alloc) : ~q.cooling } }
 Cont(id)   == CHOOSE c \in SeqToSet(cfg.containers) : c.id = id
@@ -23,7 +23,7 @@ IpsOf(e)   == { [a |-> r.a, fam |-> r.fam] : r \in SeqToSet(e.ips) }
 BusyOf(e)  == << Cardinality({ i \in DOMAIN e.alloc : e.alloc[i].fam = "v4" }),
                  Cardinality({ i \in DOMAIN e.alloc : e.alloc[i].fam = "v6" }) >>
 
-TInit == l = 1 /\ alloc = {} /\ cfg = [net |-> "", containers |-> <<>>, cap |-> <<0, 0>>] /\ busy = <<0, 0>>
+TInit == l = 1 /\ alloc = {} /\ held = {} /\ cfg = [net |-> "", containers |-> <<>>, cap |-> <<0, 0>>] /\ busy = <<0, 0>>
 
 \* ---- drift (never a verdict): does an UN-FAULTED call behave as the implementation layer I_CNI says? ---------
 \* An un-faulted add succeeds iff every requested family has a free address; an un-faulted add that fails while
